@@ -1,5 +1,6 @@
 """Which harness modules decide which property."""
 PROPERTIES = {
+    "C02": ["harness.C02_execute"],
     "C20": ["harness.C20_schema_validation"],
     "C14": ["harness.C14_merge"],
     "C15": ["harness.C15_input", "harness.C16_numeric"],
